@@ -87,7 +87,7 @@ pub fn check(r: &ExecResult, prog: &Program) -> Vec<Finding> {
             }
         }
         for mut x in fs {
-            if x.sig.starts_with("stuck:") || x.sig == "timeout" || x.sig == "task-panic" {
+            if x.sig.starts_with("stuck:") || x.sig == "timeout" || x.sig == "task-panic" || x.sig == "process-wide-state" {
                 continue; // already reported once by the whole-log sanity check
             }
             x.sig = format!("store{}-{}", s, x.sig);
@@ -114,6 +114,52 @@ pub fn check(r: &ExecResult, prog: &Program) -> Vec<Finding> {
         }
     }
     f.dedup_by(|a, b| a.sig == b.sig);
+    f
+}
+
+/// Store A is closed and its last user handle dropped while one of its effects is still running
+/// (parked on a gate); store B, which shares nothing with A, must stop without waiting for it.
+fn body_orphan() {
+    let gate = verif_rt::Gate::new(0);
+    let mut ca = StoreCfg::new(1, 2, Pol::Block);
+    ca.name = Some("a".into());
+    ca.knobs = Knobs { effect_gate: Some(gate), ..Default::default() };
+    let a = build_store(ca);
+    let mut cb = StoreCfg::new(1, 2, Pol::Block);
+    cb.name = Some("b".into());
+    let b = build_store(cb);
+    dispatch(&a, Act::new(100).eff(0, EFF_GATED_TASK));
+    verif_rt::quiesce(); // A's effect is parked
+    close(&a, 0);
+    drop(a);
+    dispatch(&b, Act::new(200));
+    stop(&b, 10);
+    get_state(&b, 101);
+    note("b_stopped", 0, 0);
+    gate.open(1);
+    verif_rt::quiesce();
+}
+
+fn check_orphan(r: &ExecResult) -> Vec<Finding> {
+    let mut f = vec![];
+    if notes(r, "stale_object").next().is_some() {
+        f.push(fnd("process-wide-state", "a thread-pool handle of a store from an earlier execution was used: process-wide state shared between store instances".into()));
+    }
+    if notes(r, "b_stopped").next().is_none() || r.stuck.iter().any(|s| s.role != verif_rt::Role::Internal) {
+        f.push(fnd(
+            "store-b-waits-for-store-a",
+            format!("stop() of store B did not return while an effect of the unrelated, already closed store A was still running: {}", r.stuck.iter().map(|s| format!("{} {:?}", s.name, s.wait)).collect::<Vec<_>>().join("; ")),
+        ));
+    }
+    let p = pipe(r);
+    if let Some(g) = rets(r, "get_state").find(|g| g.a == 101) {
+        let want = p.after.get(&200).cloned().unwrap_or_default();
+        if *g.st != want {
+            f.push(fnd("store1-state", format!("store B's state after its stop() is {} instead of {}", fmt_st(g.st), fmt_st(&want))));
+        }
+    }
+    // (a timed-out pool join inside the drop of the closed store A is A's own business: its
+    // Drop runs on its own reducer thread and waits for itself — not compared here)
     f
 }
 
@@ -251,5 +297,13 @@ pub fn scenarios(tier: Tier) -> Vec<Scenario> {
             f
         }));
     }
+    v.push(Scenario {
+        name: "C19/orphan".to_string(),
+        params: "store A closed and dropped while its effect is parked; store B dispatch + stop".to_string(),
+        opts: opts_elide(),
+        bound: if tier == Tier::Quick { 2 } else { 3 },
+        body: std::sync::Arc::new(body_orphan),
+        check: std::sync::Arc::new(check_orphan),
+    });
     v
 }
